@@ -6,7 +6,7 @@ import io
 from hypothesis import strategies as st
 
 from pbt import common, gens, libside, refsem
-from pbt.drive import Err, HarnessError, HypStage, Violation, import_repo, lib
+from pbt.drive import EnumStage, Err, HarnessError, HypStage, Violation, import_repo, lib
 from pbt.refsem import SCALARS, S, Sem, fkey
 
 ID = "C07"
@@ -60,7 +60,7 @@ def twin_case(draw):
     if draw(st.booleans()):
         fields[1], fields[3] = dict(fields[3], name="q"), dict(fields[1], name="e")
     defs = [{"k": "structdef", "n": "Root", "t": {"k": "st", "kind": "struct", "name": None, "fields": fields}}]
-    cfg = draw(gens.config())
+    cfg = draw(gens.config(flip=True))
     sem = Sem(defs, cfg)
     v = gens.gen_value(draw, sem, gens.ROOT)
     enc = bytes(sem.encode(gens.ROOT, v))
@@ -201,6 +201,8 @@ def run_case(case, ctx):
         return _run_ragged(case, ctx, m)
     if case.get("refuse"):
         return _run_refuse(case, ctx, m)
+    if case.get("zero_spellings"):
+        return _run_zero_spellings(case, ctx, m)
     if case.get("standalone"):
         sem = Sem(case["defs"], case["cfg"])
         cs = m.cstruct(endian=case["cfg"]["endian"])
@@ -229,6 +231,8 @@ def run_case(case, ctx):
         return
     sem = ref["sem"]
     cs = common.load(case)
+    if case["cfg"].get("load_endian"):
+        ctx.count("endian-switched-after-load")
     _compare(case, ctx, cs.Root, sem, common.ROOT, ref["data"], ref["want"], ref["end"], "field arrays")
     acc = {}
     _array_stats(sem, common.ROOT, ref["want"], ctx, acc)
@@ -418,6 +422,60 @@ def _kf_const_fold(case, v):
 KNOWN_PREDICATES = {"constant-folded-over-field": _kf_const_fold}
 
 
+def zero_spelling_cases():
+    """x[] over element types in which the value zero has more than one encoding: IEEE-754 negative zero (equal to zero,
+    sign bit set). The element that equals zero ends the array whichever way it is spelled."""
+    for et, size in (("float16", 2), ("float", 4), ("double", 8)):
+        for endian in "<>!":
+            for compiled in (False, True):
+                for before in (0, 1, 3):
+                    for term in ("-0", "+0"):
+                        for form in ("field", "standalone", "field-last"):
+                            yield {"zero_spellings": True, "elem": et, "size": size, "endian": endian, "compiled": compiled, "before": before, "term": term, "form": form}
+
+
+def _run_zero_spellings(case, ctx, m):
+    import struct as _st
+
+    fmt = ("<" if case["endian"] == "<" else ">") + {"float16": "e", "float": "f", "double": "d"}[case["elem"]]
+    vals = [1.5, -2.25, 7.0][: case["before"]]
+    enc = b"".join(_st.pack(fmt, v) for v in vals) + _st.pack(fmt, -0.0 if case["term"] == "-0" else 0.0)
+    rest = [3.5, 0.0, 9.0]  # what follows the terminator: one more non-zero element, a positive zero, a tail value
+    data = enc + b"".join(_st.pack(fmt, v) for v in rest)
+    cs = m.cstruct(endian=case["endian"])
+    text = {"field": f"struct Root {{ {case['elem']} x[]; {case['elem']} tail; }};", "field-last": f"struct Root {{ uint8 h; {case['elem']} x[]; }};", "standalone": ""}[case["form"]]
+    if text:
+        r = lib(cs.load, text, compiled=case["compiled"])
+        if isinstance(r, Err):
+            raise Violation("definition-rejected", f"{text}: {r}", r.where)
+    what = f"{case['elem']} x[] ({case['form']}, endian {case['endian']}, compiled={case['compiled']}) over {data.hex()} (terminator {case['term']}.0 after {case['before']} elements)"
+    if case["form"] == "field-last":
+        data = b"\x07" + data
+    s_ = io.BytesIO(data)
+    T = cs.Root if text else getattr(cs, case["elem"])[None]
+    obj = lib(T, s_)
+    if isinstance(obj, Err):
+        raise Violation("zero-spelling:raised", f"{what}: {obj}", obj.where)
+    got = [float(x) for x in (obj.x if text else obj)]
+    want_end = len(enc) + (case["size"] if case["form"] == "field" else 0) + (1 if case["form"] == "field-last" else 0)
+    if got != vals or s_.tell() != want_end:
+        raise Violation("zero-spelling:array-does-not-stop-at-first-zero", f"{what}: elements {got}, stream at {s_.tell()}; the first element equal to zero is element {case['before']}: expected {vals} and the stream at {want_end}")
+    if case["form"] == "field" and obj.tail != 3.5:
+        raise Violation("zero-spelling:following-field-shifted", f"{what}: tail {float(obj.tail)}, expected 3.5")
+    d = lib(obj.dumps) if text else lib(T.dumps, obj)
+    if isinstance(d, Err):
+        raise Violation("zero-spelling:dump-raised", f"{what}: {d}", d.where)
+    # dumping re-appends a zero element (either spelling of zero is a zero element; the other bytes are reproduced)
+    zero_at = (1 if case["form"] == "field-last" else 0) + len(enc) - case["size"]
+    if len(d) != want_end or d[:zero_at] != data[:zero_at] or _st.unpack(fmt, d[zero_at : zero_at + case["size"]])[0] != 0 or d[zero_at + case["size"] :] != data[zero_at + case["size"] : want_end]:
+        raise Violation("zero-spelling:dump-differs", f"{what}: dumps {d.hex()}, expected {data[:want_end].hex()} (with either zero as the terminator)")
+    ctx.count("zero-spelling:" + case["term"] + ":" + case["form"])
+    if case["term"] == "-0":
+        ctx.mark_nontrivial([case["elem"], case["endian"], case["compiled"], case["before"], case["form"]])
+        if case["before"] == 1 and case["endian"] == ">" and case["form"] == "field":
+            ctx.sample({"definition": text, "data": data.hex(), "elements": got}, "zero-spelling")
+
+
 def stages(tier):
     q = tier == "quick"
     return [
@@ -428,4 +486,5 @@ def stages(tier):
         HypStage("standalone", standalone_case, examples=1500 if q else 6000, shards=4 if q else 8),
         HypStage("ragged", ragged_case, examples=300 if q else 2000, shards=1 if q else 2),
         HypStage("refuse", refuse_case, examples=400 if q else 3000, shards=2 if q else 4),
+        EnumStage("zero-spellings", zero_spelling_cases, shards=1, scope="x[] of float16/float/double x byte order x reader x 0/1/3 elements before the terminator x terminator spelled +0.0 / -0.0 x field (followed by a field / last) / stand-alone"),
     ]
